@@ -1,0 +1,63 @@
+//go:build verif
+
+// Package verifhooks re-exports a few internal primitives for the external
+// verification harness (Go forbids importing internal/ packages from another
+// module). It is only compiled with the build tag "verif" and adds no
+// behaviour of its own.
+package verifhooks
+
+import (
+	"io"
+
+	"gitlab.com/gomidi/midi/v2/internal/runningstatus"
+	"gitlab.com/gomidi/midi/v2/internal/utils"
+)
+
+// VlqEncode is utils.VlqEncode
+func VlqEncode(n uint32) []byte { return utils.VlqEncode(n) }
+
+// VlqDecode is utils.VlqDecode
+func VlqDecode(b []byte) uint32 { return utils.VlqDecode(b) }
+
+// ReadVarLength is utils.ReadVarLength
+func ReadVarLength(rd io.Reader) (uint32, error) { return utils.ReadVarLength(rd) }
+
+// ReadVarLengthData is utils.ReadVarLengthData
+func ReadVarLengthData(rd io.Reader) ([]byte, error) { return utils.ReadVarLengthData(rd) }
+
+// ReadNBytes is utils.ReadNBytes
+func ReadNBytes(n int, rd io.Reader) ([]byte, error) { return utils.ReadNBytes(n, rd) }
+
+// ReadUint16 is utils.ReadUint16
+func ReadUint16(rd io.Reader) (uint16, error) { return utils.ReadUint16(rd) }
+
+// ReadUint32 is utils.ReadUint32
+func ReadUint32(rd io.Reader) (uint32, error) { return utils.ReadUint32(rd) }
+
+// MsbLsbSigned is utils.MsbLsbSigned
+func MsbLsbSigned(n int16) uint16 { return utils.MsbLsbSigned(n) }
+
+// KeyFromSharpsOrFlats is utils.KeyFromSharpsOrFlats
+func KeyFromSharpsOrFlats(sharpsOrFlats int8, mode uint8) uint8 {
+	return utils.KeyFromSharpsOrFlats(sharpsOrFlats, mode)
+}
+
+// SMFRunningStatusWrite feeds msgs through a fresh SMF running status writer
+func SMFRunningStatusWrite(msgs [][]byte) (out [][]byte) {
+	w := runningstatus.NewSMFWriter()
+	for _, m := range msgs {
+		out = append(out, w.Write(m))
+	}
+	return
+}
+
+// SMFRunningStatusRead feeds canaries through a fresh SMF running status reader
+func SMFRunningStatusRead(canaries []byte) (status []byte, changed []bool) {
+	r := runningstatus.NewSMFReader()
+	for _, c := range canaries {
+		s, ch := r.Read(c)
+		status = append(status, s)
+		changed = append(changed, ch)
+	}
+	return
+}
